@@ -722,12 +722,10 @@ func (s *storage) append(br blob.SizedRef, r io.Reader) error {
 		return err
 	}
 
+	// Write the index row before possibly moving on to the next pack
+	// file: undoing the append below must happen on the file we
+	// appended to.
 	packIdx := len(s.fds) - 1
-	if s.size > s.maxFileSize {
-		if err := s.nextPack(); err != nil {
-			return err
-		}
-	}
 	err = s.index.Set(br.Ref.String(), blobMeta{packIdx, offset, br.Size}.String())
 	if err != nil {
 		if _, seekErr := s.writer.Seek(origOffset, io.SeekStart); seekErr != nil {
@@ -737,8 +735,12 @@ func (s *storage) append(br blob.SizedRef, r io.Reader) error {
 		} else {
 			s.size = origOffset
 		}
+		return err
 	}
-	return err
+	if s.size > s.maxFileSize {
+		return s.nextPack()
+	}
+	return nil
 }
 
 // meta fetches the metadata for the specified blob from the index.
